@@ -68,7 +68,7 @@ V('c17-oow-rst-resets', 'C17', T,
   """                    (true, false) => {
                         if (window_start <= segment_start && segment_start < window_end)
                             || repr.control == TcpControl::Rst
-                        {""", 'R17.4')
+                        {""", 'R17.4b')
 V('c17-close-delay', 'C17', T,
   """const CLOSE_DELAY: Duration = Duration::from_millis(10_000);""",
   """const CLOSE_DELAY: Duration = Duration::from_millis(1_000);""", 'R17.5')
